@@ -50,6 +50,27 @@ CHECKS = {
              "already executed under lazy-BB cannot be inlined by later modules - recorded in DESIGN.md as out of this property). A function export "
              "arriving after an external of the same name without permission is treated as unspecified.",
         design="3/C13"),
+    "C10": dict(
+        technique=TECH + "round-trip oracle: structural module comparison through the public API + text fixpoint + differential execution",
+        text="Modules covering the whole item/insn/operand vocabulary are built through the API, written by MIR_output_module, scanned back into a "
+             "fresh context and compared field by field with the original (so a writer and scanner that agree on a wrong text are still caught); "
+             "the re-read module must print to a byte-identical fixpoint and its executable entry functions must return the same results "
+             "(interpreter, lazy generation at -O0/-O1). A per-case watchdog turns a non-terminating writer into a violation. Runs on the fast and "
+             "the ASan/assert builds.",
+        note="Trusted: the structural comparator in h/modgen.h. Integer immediates are compared modulo 2^64. One open known finding (string "
+             "operands without trailing NUL are not expressible in text) is exercised by a dedicated sub-run only. Non-finite FP immediates are "
+             "excluded as the property says.",
+        design="3/C10"),
+    "C11": dict(
+        technique=TECH + "round-trip oracle: byte determinism of two writes + structural comparison after MIR_read + second generation + differential execution",
+        text="The same generated modules (plus non-finite FP immediates, strings without NUL, high-entropy blobs, 1-3 modules per stream, multi-buffer "
+             "streams, streams whose uncompressed length sits exactly on a compression-buffer multiple, and mixed-origin streams written by a context "
+             "that first read modules and then built more) are written twice (bytes must be equal), read into a fresh context, compared field by "
+             "field with the originals (immediates bit for bit, lref labels attached to the same labels), printed (text equal), written and read "
+             "again, loaded, linked and executed.",
+        note="Trusted: the structural comparator. Byte equality of write(read(B)) with B is deliberately not required: long double padding bytes "
+             "are indeterminate in memory (see DESIGN.md corrections log).",
+        design="3/C11"),
 }
 
 REASON_TODO = "check not built yet (work in progress; DESIGN.md section 3 describes the planned monitor)"
